@@ -504,6 +504,26 @@ theorem pipelined_frame_has_full_budget (finishedPrev prefixRead qto : Nat) (h :
     finishedPrev + qto ≤ frameDeadline prefixRead qto ∧ frameDeadline prefixRead qto - prefixRead = qto := by
   unfold frameDeadline; omega
 
+/-- **The listener keeps admitting clients after any Accept error.**  For
+every sequence of Accept results that does not contain "listener closed" —
+timeouts, temporary and non-temporary errors in any order — every connection
+in the sequence is admitted. -/
+theorem accept_loop_survives_errors (rs : List AcceptRes) (h : AcceptRes.closed ∉ rs) :
+    acceptLoop rs = (rs.filter (· == .conn)).length := by
+  induction rs with
+  | nil => rfl
+  | cons r rest ih =>
+    have hr : r ≠ .closed := fun e => h (by simp [e])
+    have hrest : AcceptRes.closed ∉ rest := fun m => h (List.mem_cons_of_mem _ m)
+    cases r with
+    | conn => simp [acceptLoop, acceptLoopContinues, ih hrest]; omega
+    | closed => exact absurd rfl hr
+    | err t p => simp [acceptLoop, acceptLoopContinues, ih hrest]
+
+/-- root priming never leaves the root set locked, whatever the priming answer carried -/
+theorem priming_releases_root_lock (found configured : Nat) : (primingTail found configured).2 = false := by
+  unfold primingTail; split <;> rfl
+
 /-! ## Resolver.groupLookup: a failed leader's error stays local -/
 
 /-- **Request-local leader errors are not handed to followers.**  A caller
@@ -608,6 +628,8 @@ example : serveFrameTokens (tcpLarge 2048) (tcpLarge 2048) ⟨4, 2⟩ ⟨4, 2⟩
 -- (what a disagreement on the boundary would do: a large token taken, a small one put back into a full channel)
 example : serveFrameTokens (fun l => l ≥ 2048) (tcpLarge 2048) ⟨4, 2⟩ ⟨4, 2⟩ 2048 = none := by decide
 example : frameDeadline 9000 1200 = 10200 := by decide
+example : acceptLoop [.err false false, .conn, .err true true, .err false true, .conn] = 2 := by decide
+example : primingTail 1 2 = (false, false) ∧ primingTail 2 2 = (true, false) := by decide
 -- quota 2: two admitted, two shed, both leave: the counter is back at zero and the zone is open again
 example :
     let z := [ZOp.enter, .enter, .enter, .enter, .leave, .leave].foldl (ZL.step 2) {}
